@@ -1373,6 +1373,39 @@ impl Display for Function {
     }
 }
 
+/// Verification hook: with `MSCRIPT_VERIF_TRACE=<file>` every executed instruction is appended to
+/// that file as `function ip opcode operand-stack-length open-block-frames`.
+#[cfg(mscript_verif)]
+fn verif_trace(function: &str, ip: usize, opcode: u8, operands: usize, blocks: usize) {
+    use std::io::Write;
+    use std::sync::{Mutex, OnceLock};
+
+    static SINK: OnceLock<Option<Mutex<std::fs::File>>> = OnceLock::new();
+
+    let sink = SINK.get_or_init(|| {
+        let path = std::env::var_os("MSCRIPT_VERIF_TRACE")?;
+        let file = std::fs::OpenOptions::new()
+            .create(true)
+            .append(true)
+            .open(path)
+            .ok()?;
+        Some(Mutex::new(file))
+    });
+
+    // bounded: a long-running program must not fill the disk
+    static LINES: std::sync::atomic::AtomicUsize = std::sync::atomic::AtomicUsize::new(0);
+
+    if let Some(file) = sink {
+        if LINES.fetch_add(1, std::sync::atomic::Ordering::Relaxed) >= 1_000_000 {
+            return;
+        }
+
+        if let Ok(mut file) = file.lock() {
+            let _ = writeln!(file, "{function} {ip} {opcode} {operands} {blocks}");
+        }
+    }
+}
+
 impl Function {
     /// Initialize a [`Function`] given its fields.
     pub(crate) const fn new(
@@ -1439,6 +1472,10 @@ impl Function {
                 .extend(Cow::Owned(self.get_qualified_name()));
         }
 
+        // frames of this activation above its own function frame = open block frames
+        #[cfg(mscript_verif)]
+        let verif_base_frames = current_frame.borrow().size();
+
         // Each function needs its own context.
         let mut context = Ctx::new(self, current_frame.clone(), args, callback_state);
 
@@ -1451,6 +1488,15 @@ impl Function {
 
         while instruction_ptr < self.instructions.len() {
             let instruction = &self.instructions[instruction_ptr];
+
+            #[cfg(mscript_verif)]
+            verif_trace(
+                &self.name,
+                instruction_ptr,
+                instruction.id,
+                context.stack_size(),
+                current_frame.borrow().size() - verif_base_frames,
+            );
 
             // queries the function pointer associated with the instruction,
             // and gives it ownership of the instruction.
